@@ -21,6 +21,10 @@ def FUN_TOL_B(f, opt, on_bound):
     return 1e-2 if (opt == "minuit" and on_bound) else FUN_TOL(f, opt)
 
 
+_MODELS = {}     # per worker process: model objects are reused across cases (same yields and bounds, other observations, tested
+                 # values, options) so that anything a model remembers from earlier calls shows in later results
+
+
 def counting_model(pyhf, case):
     sig = [float(frac(x)) for x in case["sig"]]
     bkg = [float(frac(x)) for x in case["bkg"]]
@@ -28,7 +32,12 @@ def counting_model(pyhf, case):
         {"name": "sig", "data": sig, "modifiers": [{"name": "mu", "type": "normfactor", "data": None}]},
         {"name": "bkg", "data": bkg, "modifiers": []}]}],
         "parameters": [{"name": "mu", "bounds": [[float(frac(case["lo"])), float(frac(case["hi"]))]], "inits": [1.0]}]}
-    return pyhf.Model(spec, poi_name="mu"), [float(frac(x)) for x in case["obs"]]
+    key = (id(pyhf), json.dumps(spec, sort_keys=True))
+    if key not in _MODELS:
+        if len(_MODELS) > 400:
+            _MODELS.clear()
+        _MODELS[key] = pyhf.Model(spec, poi_name="mu")
+    return _MODELS[key], [float(frac(x)) for x in case["obs"]]
 
 
 def nuisance_model(pyhf):
